@@ -152,7 +152,8 @@ def c2_probe_depth(fb, rep):
     rep.floor(clause, 'aggressive-probing assignments', len(low), 1)
     for b, i, e in low:
         g = G.guards_of(it, set(it.blocks), b)
-        ok = any('updateTB' in x and not x.startswith('!') for x in g)
+        upd = lambda v: (lambda t: ('v', v) if t.get('k') == 'call' and cname(t).split('::')[-1] == 'updateTB' else None)
+        ok = G.excluded_under(it, b, upd(0)) and not G.excluded_under(it, b, upd(1))
         rep.ob(clause, 'K4 guard', 'iterativeDeepening enables aggressive tablebase probing only when updateTB() succeeded', ok, R.site(it, e), 'guards %s' % g, it.sname)
     for b, i, e in writes:
         if (b, i, e) in low:
@@ -165,7 +166,15 @@ def c2_probe_depth(fb, rep):
         probes = [(b, i, e) for b, i, e in f.events() if e.get('k') == 'call' and cname(e) == 'TBProbe::tbProbe']
         for b, i, e in probes:
             g = G.guards_of(f, set(f.blocks), b)
-            ok = any('minProbeDepth' in x and 'depth >=' in x.replace('(', '') for x in g)
+            # the variable compared with minProbeDepth, then: unreachable one below the threshold, reachable at it
+            dv = None
+            for c_, s_ in G.guard_trees(f, set(f.blocks), b):
+                if any(isinstance(n_, dict) and n_.get('k') == 'mem' and ap(n_) == 'this.minProbeDepth' for n_ in walk(c_)):
+                    vs = [n_.get('id') for n_ in walk(c_) if isinstance(n_, dict) and n_.get('k') == 'var' and n_.get('vk') in ('param', 'local')]
+                    if len(set(vs)) == 1:
+                        dv = vs[0]
+            lf = lambda d: (lambda t: ('v', 5) if t.get('k') == 'mem' and ap(t) == 'this.minProbeDepth' else (('v', d) if t.get('k') == 'var' and t.get('id') == dv else None))
+            ok = dv is not None and G.excluded_under(f, b, lf(4)) and G.excluded_under(f, b, lf(-1)) and not G.excluded_under(f, b, lf(5)) and not G.excluded_under(f, b, lf(9))
             rep.ob(clause, 'K4 guard', '%s probes the tablebases only at depth >= minProbeDepth' % f.name, ok, R.site(f, e), 'guards %s' % g, f.sname)
 
 
